@@ -658,10 +658,13 @@ def rule_zskip_kind(ctx):
     """after a Z-order skip the cursor is FIRST_GE(bigmin) when it is next examined (bigmin may itself be stored)"""
     obs = []
     IT = ('field', 'it', ('this',))
-    for f in ctx.need(RI + '::advance'):
-        bm = f.calls_to(MD + '::bigmin')
-        if not bm:
+    zfns = [(f, True) for f in ctx.need(RI + '::advance')] + [(f, False) for f in ctx.need(RI + '::RangeIterator') if len(f.params) == 3]
+    for (f, required) in zfns:
+        bm = f.calls_to(MD + '::bigmin') or [i for i in f.all_ids() if f.n(i)['c'] == 'InlinedCall' and f.n(i).get('ct_inlined') == MD + '::bigmin']
+        if not bm and required:
             raise AnalysisBroken(f"{f.qname}: call to bigmin not found")
+        if not bm:
+            continue        # the constructor skips only when the scan loop is shared with advance() (a helper inlined into both)
         found_any = False
         for i in f.all_ids():
             nd = f.n(i)
@@ -685,7 +688,7 @@ def rule_zskip_kind(ctx):
                 obs.append(Ob('KIND', f, i, 'cursor is FIRST_GE(bigmin), searched in a range that contains that position, when next examined',
                               f"{k[0] if k else 'unknown'}({'bigmin' if k and k[1] == bterm else (fmt_term(k[1]) if k else '?')}) at the next read (line {f.n(rd)['l']}); {rng_txt}",
                               st, arm='zskip'))
-        if not found_any:
+        if not found_any and required:
             raise AnalysisBroken(f"{f.qname}: no assignment of the cursor from a search for bigmin found")
     # constructor: initial position is FIRST_GE(zmin)
     for f in ctx.need(RI + '::RangeIterator'):
@@ -696,7 +699,15 @@ def rule_zskip_kind(ctx):
             is_assign = (nd['c'] == 'CXXOperatorCallExpr' and nd.get('op') == '=') or (nd['c'] == 'BinaryOperator' and nd.get('op') == '=')
             if not is_assign or f.term(i, inline=False)[2] != IT:
                 continue
-            k = kinds.kind_of_term(f.term(i, inline=True)[3])
+            rhs_ = f.term(i, inline=True)[3]
+            if any(s_[0] == 'call' and s_[1] == MD + '::bigmin' for s_ in _subterms(rhs_)):
+                continue        # a Z-order skip of a scan loop shared with advance(): decided above
+            r0 = rhs_
+            while r0[0] == 'cast':
+                r0 = r0[2]
+            if r0[0] == 'call' and r0[1].endswith('::end') and _contains(r0, ('field', 'data', ('field', 'super', ('this',)))):
+                continue        # `it = data.end()`: the exhausted state
+            k = kinds.kind_of_term(rhs_)
             zmin = ('field', 'zmin', ('this',))
             ok = bool(k) and k[0] == 'FIRST_GE' and k[1] == zmin
             obs.append(Ob('KIND', f, i, 'initial cursor is FIRST_GE(zmin)', f"{k[0] if k else 'unknown'}({fmt_term(k[1]) if k else '?'})",
@@ -704,8 +715,36 @@ def rule_zskip_kind(ctx):
     return obs
 
 
+def rule_upper_in_window(ctx):
+    """The range pgm.search(z) returns is only guaranteed to contain the *first* occurrence of z (the lower bound).  A run of
+    codes equal to z - a point stored several times - may extend past hi, so std::upper_bound restricted to that range can
+    return a position inside the run: used as the end of the scan it drops the trailing copies of a point equal to the box's
+    max corner.  Any FIRST_GT search whose range derives from pgm.search(...) in the multidimensional index is a violation."""
+    obs = []
+    n = 0
+    for u in ctx.units:
+        for f in u.functions.values():
+            if not (f.tname.startswith(MD + '::') or f.tname == MD) or '(lambda)' in f.tname or not f.body:
+                continue
+            for c in f.calls(pred=lambda nd: nd.get('ct') in kinds.UPPER):
+                if not reachable_in(f, c):
+                    continue
+                n += 1
+                a = f.n(c)['args']
+                ts = [f.term(x, inline=True) for x in a[:2]]
+                win = [t for t in ts if any(s_[0] == 'field' and s_[1] in ('lo', 'hi') and isinstance(s_[2], tuple) and
+                                            (s_[2][0] == 'call' and str(s_[2][1]).endswith('::search') or s_[2][0] == 'local') for s_ in _subterms(t))]
+                obs.append(Ob('KIND', f, c, 'no upper_bound is confined to the range returned by pgm.search() (it only guarantees the first occurrence of the code)',
+                              ('std::upper_bound over `' + fmt_term(win[0])[:60] + '`: a run of equal codes that extends past the window end makes the result too small') if win
+                              else 'upper_bound over a range that does not come from the index', VIOLATED if win else OK, arm='upper-in-window'))
+    if n == 0:
+        obs.append(Ob('KIND', None, 0, 'no upper_bound is confined to the range returned by pgm.search()', 'no std::upper_bound in the multidimensional index', OK, arm='upper-in-window',
+                      detail={'record': MD}))
+    return obs
+
+
 def rules_c13(ctx):
-    return (rule_emit_guard(ctx) + rule_zskip_kind(ctx) + rule_data_exact(ctx) +
+    return (rule_emit_guard(ctx) + rule_zskip_kind(ctx) + rule_upper_in_window(ctx) + rule_data_exact(ctx) +
             rule_end_guard(ctx, [RI + '::advance', RI + '::RangeIterator', RI + '::operator++']))
 
 
